@@ -483,10 +483,22 @@ class Extractor:
         # loop body is the same as running it as a closure per element)
         if d["foreach"]:
             fe = [k for k in range(a, b - 4) if toks[k].text == "." and toks[k + 1].text == "for_each" and toks[k + 2].text == "(" and toks[k + 3].text == "|"]
+            def recv_start(kk):
+                r0 = kk
+                while True:
+                    pt = toks[r0 - 1]
+                    if pt.kind == "punct" and pt.text in (")", "]") and (r0 - 1) in src.tbl:
+                        r0 = src.tbl[r0 - 1]
+                        continue
+                    if pt.kind == "punct" and pt.text in ("{", ";", "}"):
+                        break
+                    r0 -= 1
+                return r0
             for (n, itname, inv) in d["foreach"]:
                 if isinstance(n, str):
+                    # the key may name the receiver as well as anything in the closure
                     want = token_texts(n)
-                    cands = [kk for kk in fe if find_seq(toks, want, kk, src.tbl[kk + 2] + 1)]
+                    cands = [kk for kk in fe if find_seq(toks, want, recv_start(kk), src.tbl[kk + 2] + 1)]
                     if len(cands) != 1:
                         raise LostAnchor("%s: FOREACH key `%s` matches %d for_each calls in %s %s" % (rel, " ".join(want)[:80], len(cands), kind, name))
                     k = cands[0]
@@ -499,11 +511,43 @@ class Extractor:
                 while toks[q].text != "|":
                     q += 1
                 pat = src.text[toks[k + 3].end:toks[q].start].strip()
-                if toks[q + 1].text != "{":
-                    raise UnitError("FOREACH: closure body must be a block")
+                pc = src.tbl[k + 2]
+                if toks[q + 1].text != "{" or src.tbl[q + 1] != pc - 1:
+                    # expression closure `|PAT| EXPR)`: the loop body is `{ EXPR; }`
+                    if toks[pc + 1].text != ";":
+                        raise UnitError("FOREACH: expected `);` after the closure in %s %s" % (kind, name))
+                    if any(toks[x].text in ("return", "break", "continue", "?") for x in range(q + 1, pc)):
+                        raise UnitError("FOREACH: closure body of a for_each in %s %s has control flow that a loop body would change" % (kind, name))
+                    r0 = k
+                    while True:
+                        pt = toks[r0 - 1]
+                        if pt.kind == "punct" and pt.text in (")", "]") and (r0 - 1) in src.tbl:
+                            r0 = src.tbl[r0 - 1]
+                            continue
+                        if pt.kind == "punct" and pt.text in ("{", ";", "}"):
+                            break
+                        r0 -= 1
+                    o = toks[r0].start - base
+                    pieces.append(Piece(o, o, "for %s in %s: " % (pat, itname), "ins"))
+                    sect = dict(inv=[], start=[], end=[])
+                    cur_s = "inv"
+                    for ln in inv.split("\n"):
+                        if ln.strip() == "//@ BODYSTART":
+                            cur_s = "start"
+                        elif ln.strip() == "//@ BODYEND":
+                            cur_s = "end"
+                        else:
+                            sect[cur_s].append(ln)
+                    s0, s1 = toks[k].start - base, toks[q].end - base
+                    pieces.append(Piece(s0, s1, "\n" + "\n".join(sect["inv"]).rstrip("\n") + "\n{\n" + "\n".join(sect["start"]), "subst", old=orig[s0:s1], rule="R6"))
+                    s0, s1 = toks[pc].start - base, toks[pc + 1].end - base
+                    pieces.append(Piece(s0, s1, ";\n" + "\n".join(sect["end"]) + "\n}", "subst", old=orig[s0:s1], rule="R6"))
+                    bump("R6")
+                    line = src.text.count("\n", 0, toks[k].start) + 1
+                    self.lifts.append("%s:%d R10 `X.for_each(|%s| e);` -> `for %s in X { e; }`" % (rel, line, pat, pat))
+                    continue
                 bo = q + 1
                 bc = src.tbl[bo]
-                pc = src.tbl[k + 2]
                 if pc != bc + 1 or toks[pc + 1].text != ";":
                     raise UnitError("FOREACH: expected `});` after the closure body in %s %s" % (kind, name))
                 if any(toks[x].text in ("return", "break", "continue", "?") for x in range(bo, bc)):
